@@ -1,5 +1,6 @@
 import Svgbob.Proofs.TextCover
 import Svgbob.Proofs.TableNoText
+import Svgbob.Proofs.Forest
 /-!
 # C04 — every non-drawing character appears exactly once, as text, in its own cell
 
@@ -154,6 +155,14 @@ theorem nothing_foreign_is_shown (env : Env) (s : Span) (hnd : (s.map (·.1)).No
   obtain ⟨cc, hcc, hpc⟩ := hp'
   rw [cell_shows_only_itself env s cc p hpc]
   exact hcc
+
+/-- **the last stage keeps every text**: in the containment forest a text that does not read as a
+`{tag}` is neither dropped nor emitted twice — the nodes that come out are a permutation of the
+nodes of the fragments that went in (tags are C16) -/
+theorem last_stage_keeps_every_fragment (len : List Char → Nat) (k : Int) (frags : List Frag)
+    (h : ∀ f ∈ frags, (f.scale 1).asCssTag = []) :
+    (fragmentsToNodes len k frags).Perm (frags.map fun f => plainNode k (f.scale 1)) :=
+  fragmentsToNodes_perm len k frags h
 
 /-! Non-vacuity: a two-cell span `a|` satisfies the hypotheses; `a` is a label character. -/
 example : (([(⟨0, 0⟩, 'a'), (⟨1, 0⟩, '|')] : Span).map (·.1)).Nodup := by decide
